@@ -738,13 +738,14 @@ Section AllocInv.
     acan_remove_from L I (nth i cs adnode) = false -> acan_remove_from L I (nth (S i) cs adnode) = false ->
     amerge dflt s (AInode id vs cs) i = (n1, s1) ->
     owns s (pages (AInode id vs cs) ++ R) ->
-    step_ok h s1 n1 i R /\ length (avals n1) = length vs - 1.
+    step_ok h s1 n1 i R /\ length (avals n1) = length vs - 1 /\
+    (asc (elements (Inode vs (map erase cs))) -> asc (elements (erase (achild n1 i)))).
   Proof.
     intros h s id vs cs i n1 s1 R HP Hi Hl0 Hr0 E O. pose proof HP as [Hl _].
     pose proof (PK_achild h vs cs i HP ltac:(lia)) as Wl. pose proof (PK_achild h vs cs (S i) HP ltac:(lia)) as Wr.
     pose proof (acan_false h _ Wl Hl0) as Hl'. pose proof (acan_false h _ Wr Hr0) as Hr'.
     rewrite <- (E5 nth_erase) in Hr', Hl'.
-    destruct (B7 merge_spec h vs (map erase cs) i HP Hi Hl' Hr') as (m & Em & Wm & Nm & _).
+    destruct (B7 merge_spec h vs (map erase cs) i HP Hi Hl' Hr') as (m & Em & Wm & Nm & Eem).
     destruct (E5 erase_merge_pair s _ i n1 s1 E) as [En1 _]. cbn [erase] in En1. rewrite Em in En1.
     destruct (erase_child_of n1 _ _ i En1) as (Ec & Hlf & Hlen).
     rewrite (B7 nth_aerase_lt) in Ec by lia. rewrite nth_aset_eq in Ec by lia.
@@ -753,9 +754,14 @@ Section AllocInv.
     destruct (amerge_frame h s id vs cs i n1 s1 R ltac:(lia) Hl Wl Wr E O) as (O1 & _ & Hla).
     assert (Hv : length (avals n1) = length vs - 1).
     { rewrite <- (E5 avals_erase), En1. cbn [vals]. apply length_aerase. lia. }
-    split; [|exact Hv]. unfold step_ok. rewrite Ec.
-    split; [exact Hlf|]. split; [lia|]. split; [intros E0; rewrite Hla, E0; reflexivity|].
-    split; [exact Wm|]. split; [exact Nm|exact O1].
+    split; [|split; [exact Hv|]].
+    - unfold step_ok. rewrite Ec.
+      split; [exact Hlf|]. split; [lia|]. split; [intros E0; rewrite Hla, E0; reflexivity|].
+      split; [exact Wm|]. split; [exact Nm|exact O1].
+    - intros Ha. rewrite Ec, Eem.
+      rewrite (B7 elements_split2 vs (map erase cs) i) in Ha by (rewrite ?map_length; lia).
+      apply (B3 asc_app) in Ha as (_ & Ha & _). rewrite (B7 app_mid_assoc) in Ha.
+      apply (B3 asc_app) in Ha as (Ha & _). exact Ha.
   Qed.
 
   (* consuming a step: the recursive call on child j, then [aplug] *)
@@ -794,7 +800,7 @@ Section AllocInv.
         destruct (aremove_min dflt L I h s (achild (arotate_left dflt (AInode id vs cs) 0) 0)) as [[m c'] s1].
         rewrite aplug_eq in H by exact Hv. exact H.
       + destruct (amerge dflt s (AInode id vs cs) 0) as [n1 s0] eqn:Em.
-        destruct (step_merge h s id vs cs 0 n1 s0 R HP ltac:(lia) E0 E1 Em O) as [St _].
+        destruct (step_merge h s id vs cs 0 n1 s0 R HP ltac:(lia) E0 E1 Em O) as (St & _ & _).
         pose proof (Use 0 s0 n1 St) as H.
         destruct (aremove_min dflt L I h s0 (achild n1 0)) as [[m c'] s1]. exact H.
   Qed.
@@ -827,9 +833,85 @@ Section AllocInv.
         destruct (aremove_max dflt L I h s (achild (arotate_right dflt (AInode id vs cs) (S y)) (S y))) as [[m c'] s1].
         rewrite aplug_eq in H by exact Hv. exact H.
       + destruct (amerge dflt s (AInode id vs cs) y) as [n1 s0] eqn:Em.
-        destruct (step_merge h s id vs cs y n1 s0 R HP ltac:(lia) E1 E0 Em O) as [St _].
+        destruct (step_merge h s id vs cs y n1 s0 R HP ltac:(lia) E1 E0 Em O) as (St & _ & _).
         pose proof (Use y s0 n1 St) as H.
         destruct (aremove_max dflt L I h s0 (achild n1 y)) as [[m c'] s1]. exact H.
+  Qed.
+
+  (* ---------------------------------------------------------------- zix_btree_fatten_child *)
+  Lemma step_fatten : forall h s id vs cs i n1 i' s1 R,
+    PK L I h vs (map erase cs) -> i <= length vs -> 1 <= length vs ->
+    acan_remove_from L I (nth i cs adnode) = false ->
+    afatten_child dflt L I s (AInode id vs cs) i = (n1, i', s1) ->
+    owns s (pages (AInode id vs cs) ++ R) -> step_ok h s1 n1 i' R.
+  Proof.
+    intros h s id vs cs i n1 i' s1 R HP Hi H1 Hc E O.
+    unfold afatten_child, achild, an_vals in E. cbn [achildren avals] in E. rewrite Nat.add_1_r in E.
+    destruct ((0 <? i) && acan_remove_from L I (nth (i - 1) cs adnode)) eqn:EA.
+    { apply andb_true_iff in EA as [E0 EA]. apply Nat.ltb_lt in E0. destruct i as [|j]; [lia|].
+      replace (S j - 1) with j in EA by lia.
+      apply pair_equal_spec in E as [E <-]. apply pair_equal_spec in E as [<- <-].
+      apply (step_rotr h s id vs cs j R HP ltac:(lia) EA Hc O). }
+    destruct ((i <? length vs) && acan_remove_from L I (nth (S i) cs adnode)) eqn:EB.
+    { apply andb_true_iff in EB as [E0 EB]. apply Nat.ltb_lt in E0.
+      apply pair_equal_spec in E as [E <-]. apply pair_equal_spec in E as [<- <-].
+      apply (step_rotl h s id vs cs i R HP E0 EB Hc O). }
+    destruct (i =? length vs) eqn:EC.
+    { apply Nat.eqb_eq in EC. destruct i as [|j]; [lia|]. replace (S j - 1) with j in * by lia.
+      apply andb_false_iff in EA as [EA|EA]; [apply Nat.ltb_ge in EA; lia|].
+      destruct (amerge dflt s (AInode id vs cs) j) as [n2 s2] eqn:Em.
+      apply pair_equal_spec in E as [E <-]. apply pair_equal_spec in E as [<- <-].
+      apply (step_merge h s id vs cs j n2 s2 R HP ltac:(lia) EA Hc Em O). }
+    { apply Nat.eqb_neq in EC. assert (Hi' : i < length vs) by lia.
+      apply andb_false_iff in EB as [EB|EB]; [apply Nat.ltb_ge in EB; lia|].
+      destruct (amerge dflt s (AInode id vs cs) i) as [n2 s2] eqn:Em.
+      apply pair_equal_spec in E as [E <-]. apply pair_equal_spec in E as [<- <-].
+      apply (step_merge h s id vs cs i n2 s2 R HP Hi' Hc EB Em O). }
+  Qed.
+
+  (* ---------------------------------------------------------------- zix_btree_replace_value *)
+  Lemma areplace_value_frame : forall h s id vs cs i R,
+    PK L I h vs (map erase cs) -> i < length vs -> owns s (pages (AInode id vs cs) ++ R) ->
+    match areplace_value dflt L I h s (AInode id vs cs) i with
+    | (Some (out, n'), s') => owns s' (pages n' ++ R)
+    | (None, s') => s' = s /\ acan_remove_from L I (nth i cs adnode) = false /\
+                    acan_remove_from L I (nth (S i) cs adnode) = false
+    end.
+  Proof.
+    intros h s id vs cs i R HP Hi O. pose proof HP as [Hl _]. rewrite map_length in Hl.
+    pose proof (PK_achild h vs cs i HP ltac:(lia)) as Wl. pose proof (PK_achild h vs cs (S i) HP ltac:(lia)) as Wr.
+    unfold areplace_value, achild. cbn [achildren avals]. rewrite Nat.add_1_r.
+    destruct (negb (acan_remove_from L I (nth i cs adnode)) && negb (acan_remove_from L I (nth (S i) cs adnode))) eqn:En.
+    { apply andb_true_iff in En as [E1 E2]. apply negb_true_iff in E1, E2. auto. }
+    assert (Hcan : min_vals L I (erase (nth i cs adnode)) < n_vals (erase (nth i cs adnode)) \/
+                   min_vals L I (erase (nth (S i) cs adnode)) < n_vals (erase (nth (S i) cs adnode))).
+    { apply andb_false_iff in En as [E|E]; apply negb_false_iff in E; apply acan_true in E; auto. }
+    destruct (B7 wfn_same_kind h _ _ Wl Wr) as [Hk _].
+    pose proof (B7 wfn_bounds h _ Wl) as Bl. pose proof (B7 wfn_bounds h _ Wr) as Br.
+    rewrite <- !(E5 an_vals_erase).
+    destruct (if n_vals (erase (nth (S i) cs adnode)) <? n_vals (erase (nth i cs adnode)) then true
+              else if n_vals (erase (nth i cs adnode)) <? n_vals (erase (nth (S i) cs adnode)) then false
+                   else Nat.odd i) eqn:Eum.
+    - assert (Hcl : min_vals L I (erase (nth i cs adnode)) < n_vals (erase (nth i cs adnode))).
+      { destruct (n_vals (erase (nth (S i) cs adnode)) <? n_vals (erase (nth i cs adnode))) eqn:E1;
+          [apply Nat.ltb_lt in E1; lia|].
+        destruct (n_vals (erase (nth i cs adnode)) <? n_vals (erase (nth (S i) cs adnode))) eqn:E2; [discriminate|].
+        apply Nat.ltb_ge in E1, E2. lia. }
+      pose proof (aremove_max_frame h s (nth i cs adnode) (rest (AInode id vs cs) i ++ R) Wl Hcl
+                    (descend_frame s (AInode id vs cs) i R eq_refl ltac:(cbn [achildren]; lia) O)) as H.
+      destruct (aremove_max dflt L I h s (nth i cs adnode)) as [[m c'] s1].
+      change (pages (AInode id (aset vs i m) (aset cs i c'))) with (pages (aset_child (AInode id vs cs) i c')).
+      apply ascend_frame; [reflexivity|cbn [achildren]; lia|exact H].
+    - assert (Hcr : min_vals L I (erase (nth (S i) cs adnode)) < n_vals (erase (nth (S i) cs adnode))).
+      { destruct (n_vals (erase (nth (S i) cs adnode)) <? n_vals (erase (nth i cs adnode))) eqn:E1; [discriminate|].
+        destruct (n_vals (erase (nth i cs adnode)) <? n_vals (erase (nth (S i) cs adnode))) eqn:E2;
+          [apply Nat.ltb_lt in E2; lia|].
+        apply Nat.ltb_ge in E1, E2. lia. }
+      pose proof (aremove_min_frame h s (nth (S i) cs adnode) (rest (AInode id vs cs) (S i) ++ R) Wr Hcr
+                    (descend_frame s (AInode id vs cs) (S i) R eq_refl ltac:(cbn [achildren]; lia) O)) as H.
+      destruct (aremove_min dflt L I h s (nth (S i) cs adnode)) as [[m c'] s1].
+      change (pages (AInode id (aset vs i m) (aset cs (S i) c'))) with (pages (aset_child (AInode id vs cs) (S i) c')).
+      apply ascend_frame; [reflexivity|cbn [achildren]; lia|exact H].
   Qed.
 
 End AllocInv.
